@@ -1210,7 +1210,10 @@ Example mh_sample_ref k n :
 Proof.
   intros Hn r.
   assert (Hv : is_ mh_sample r = true) by (vm_compute; reflexivity). rewrite <- Hv.
-  apply is_ref_transfer_fresh; try (vm_compute; reflexivity); try lia.
+  apply is_ref_transfer_fresh.
+  - vm_compute; reflexivity.
+  - vm_compute; reflexivity.
+  - lia.
   - intros c Hc Hk. cbn [mh_sample visit_all flat_map app u_leaf In] in Hc.
     destruct Hc as [<-|[<-|[<-|[<-|[<-|[]]]]]]; cbn [node_oid]; split; try lia; discriminate.
   - intros c Hc Ho. cbn [mh_sample visit_all flat_map app u_leaf In] in Hc.
